@@ -22,7 +22,7 @@ CFG = {
                  "array / map literals, every placement of spreads among 1..3 elements, literal-only (folded) and mixed, each with and without a trailing comma (also nested); "
                  "comprehensions with/without key x with/without `if` x 14 kinds of element / target / condition (ternaries, literals, comprehensions inside); 9 literal forms as "
                  "left and right operand of every operator, under unary operators, filters, tests, in every ternary position, as argument, index, subscript base; literals whose "
-                 "elements sit at the recursion limit (35..41 levels) and at the array-dimension limit; random trees carry random trailing commas. "
+                 "elements sit at the recursion limit (37..41 levels) and at the array-dimension limit; random trees carry random trailing commas. "
                  "praw: mutated and hand-written malformed token streams (incl. 62 literal / comprehension texts around the trailing-comma, spread, `for` lookahead, reserved-variable "
                  "and dimension rules), accept/reject and Display. "
                  "eval: expression x context (each free variable bound to a value of every kind or unbound), `{{ (e) | probe }}` value or `{{ e }}` ok/error vs the "
@@ -30,6 +30,10 @@ CFG = {
                  "operand kind x every operator shape with `throw()` planted in the operand that must not be evaluated. Oracle on every probe-mode case: the "
                  "directly printed `{{ e }}` (the form the peephole pass fuses) gives the text of `{{ v }}` for the value v that e evaluates to, and fails exactly "
                  "when e fails or is undefined; ternary/and/or shapes with bare variables and dotted paths (bound, unbound) in every branch. "
+                 "List comprehensions and spreads (block C): `[E for x in xs if C]` over 14 targets (arrays of every element kind, nested, empty; non-arrays; unbound) x 16 element "
+                 "expressions x 13 conditions (full product in the thorough tier, a slice through each face in the quick tier) with an outer `x` bound (shadowing) and `throw()` as "
+                 "element / condition / target, plus 27 scoping / laziness / nesting / spread-of-result / key-value forms; the reference evaluator decides array targets without key "
+                 "variable (filter + map, condition first, first error wins), the rest counts as evaluated only. "
                  "Computed keys: 8 maps (literals with integer/string/bool keys, folded and with a spread; context maps keyed by u64 / i64 / i128+u128 / strings) x 29 keys "
                  "(literals, variables of every integer width, `0 + 1`, `n * 1`, `3 - 2`, `4 // 2`, `7 % 4`, `'a' ~ 'b'`, `xs | length`, ternaries, `or`/default) under "
                  "`[]`, `?[`, `in`, `not in`; arrays indexed by the same keys; the model looks keys up by mathematical value across widths (Model.Order.key_eq). "
@@ -51,8 +55,8 @@ CFG = {
                  "docs/content/_index.md 'Operator precedence' (levels), operator semantics sections (evaluator)"],
     "assumptions": ["associativity is not stated by the documentation: `**` groups to the right, every other operator to the left (Jinja2/Python convention)",
                     "the round-trip theorems cover the whole expression grammar of the property including array/map literals with spreads and trailing commas and list "
-                    "comprehensions; only the AST-side variant (C02_pratt_roundtrip_ast_partial) leaves out ASTs containing a literal-only container already folded into a "
-                    "constant (covered from the surface side)",
+                    "comprehensions; the AST-side variant is stated for the trees the parser can build (`normal`: literal-only containers are folded, folded maps have "
+                    "distinct keys)",
                     "MAX_EXPRESSION_DEPTH (D11 repair: > 256 loop-built links on one spine are a syntax error) is not part of Model/Pratt.v; the theorems speak about the model, "
                     "which accepts such chains (Model/ParseDepth.v, C06, models that limit)",
                     "inline component calls `<name .../>` inside expressions are outside the model (token streams containing them are skipped)",
